@@ -626,5 +626,34 @@ def native_C05(tier, seed):
                         zero_prior = ~np.isfinite(pi(x, box))
                         if beta is not None and (np.isfinite(got[zero_prior]).any() or np.isnan(got).any()):
                             fails.append({"id": f"C05-zero-prior-{cls.__name__}-{box}-{mode}-{prec}-{beta}", "obligation": "C05:zero prior", "what": "finite or NaN log-density at a zero-prior point", "input": inp})
-    return {"what": "real MiniPCNSMC.log_prob / MCMCSampler.log_prob against an independent IEEE recomputation: compact-support proposal (log q = -inf), narrow and wide box priors, likelihoods returning NaN / +inf, identity / logit / affine preconditioning, beta in {0.05, 0.5, 1}",
+    # ---- periodic preconditioning: the kernel may propose beyond either edge of a periodic range; the target it is handed must be the target at the
+    # wrapped point (independent oracle: floor-mod wrap computed here), through the lower edge as well as through the upper one
+    for cls, betas in ((MiniPCNSMC, (0.3, 1.0)), (MCMCSampler, (None,))):
+        flow = BoxFlow(2)
+        box = 8.0
+        lp = lambda s, _b=box: pi(np.asarray(s.x), _b)  # noqa: E731
+        ll = lambda s: L(np.asarray(s.x), "finite")  # noqa: E731
+        lo, hi = np.array([-4.0, -9.0]), np.array([4.0, 9.0])
+        tr = CompositeTransform(parameters=["a", "b"], periodic_parameters=["a"], prior_bounds={"a": [lo[0], hi[0]], "b": [lo[1], hi[1]]}, bounded_to_unbounded=False,
+                                affine_transform=False, xp=xnp)
+        kw = dict(rng=np.random.default_rng(1)) if cls is MiniPCNSMC else {}
+        s = cls(ll, lp, 2, flow, xnp, parameters=["a", "b"], preconditioning_transform=tr, **kw)
+        s.preconditioning_transform.fit(rng.uniform(-3.9, 3.9, size=(20, 2)))
+        inside = rng.uniform(-3.9, 3.9, size=(30, 2))
+        for shift, where in ((-8.0, "below the lower edge"), (8.0, "above the upper edge"), (-16.0, "two periods below"), (0.0, "inside the range")):
+            z = inside.copy()
+            z[:, 0] += shift
+            for beta in betas:
+                cases += 1
+                got = np.asarray(s.log_prob(z.copy(), beta) if beta is not None else s.log_prob(z.copy()), dtype=float)
+                xw = z.copy()
+                xw[:, 0] = lo[0] + np.mod(z[:, 0] - lo[0], hi[0] - lo[0])
+                with np.errstate(all="ignore"):
+                    want = (L(xw, "finite") + pi(xw, box)) if beta is None else ((1 - beta) * flow.log_prob(xw) + beta * (L(xw, "finite") + pi(xw, box)))
+                if not np.allclose(got, want, rtol=1e-10, atol=1e-10):
+                    k = int(np.argmax(np.abs(got - want)))
+                    fails.append({"id": f"C05-periodic-{cls.__name__}-{shift}-{beta}", "obligation": "C05:result[i] ==",
+                                  "what": f"periodic preconditioning, z {where}: log-density {got[k]} but the target at the wrapped point {xw[k].tolist()} is {want[k]}",
+                                  "input": {"class": cls.__name__, "beta": beta, "z": z[k].tolist(), "periodic_range": [float(lo[0]), float(hi[0])]}})
+    return {"what": "real MiniPCNSMC.log_prob / MCMCSampler.log_prob against an independent IEEE recomputation: periodic preconditioning with proposals beyond either edge of the range; compact-support proposal (log q = -inf), narrow and wide box priors, likelihoods returning NaN / +inf, identity / logit / affine preconditioning, beta in {0.05, 0.5, 1}",
             "bound": f"{cases} configurations x 60 points", "cases": cases, "failures": fails}
